@@ -244,8 +244,21 @@ def _worker_task(task):
 
         if seed:
             rnd.shuffle(prefixes)
-        left = eng.explore(run_path, prefixes, budget_paths=budget_paths, budget_s=budget_s, on_path=on_path)
+        def on_unknown(e, exc):
+            _candidate_replay(h, case, res)
+
+        stopped = None
+        try:
+            left = eng.explore(run_path, prefixes, budget_paths=budget_paths, budget_s=budget_s, on_path=on_path, on_unknown=on_unknown)
+        except (Unsupported, SolverUnknown) as ex:
+            # the exploration of this root stops here (inconclusive) - counterexamples found on earlier paths still count
+            stopped = ex
+            left = []
+            res["error"] = ("unsupported: " if isinstance(ex, Unsupported) else "solver-unknown: ") + str(ex) + " @ " + _where()
+            _candidate_replay(h, case, res)
         res["leftover"] = left
+        if eng.unknown_paths and stopped is None:
+            res["error"] = "solver-unknown on %d path(s): %s" % (len(eng.unknown_paths), eng.unknown_paths[0])
         for k, v in eng.stats.items():
             res["stats"][k] = res["stats"].get(k, 0) + v
         # native confirmation of counterexamples
@@ -315,8 +328,58 @@ def _candidate_replay(h, case, res, tries=12):
                 break
             cs.add(z3.Or(*block[:40]))
             # diversify: prefer different low digits
+        if not any(v.get("confirmed") and "(found by native replay" in v["site"] or v["site"].startswith("escaped:") for v in res["violations"]):
+            _boundary_candidates(h, case, res, eng, z3)
     except BaseException:
-        pass
+        if os.environ.get("PYSYM_TRACE"):
+            traceback.print_exc()
+
+
+def _boundary_candidates(h, case, res, eng, z3, max_checks=240):
+    """boundary values: every integer constant the path condition mentions (thresholds, powers of a base, limits), and
+    its two neighbours, is tried for every integer input - pinned in the solver, so that the rest of the model still
+    satisfies the path condition - and replayed natively. Rare inputs such as exact powers are found this way when the
+    assertion query itself is beyond the solver. A native failure is a confirmed counterexample; none proves nothing."""
+    consts = set()
+    todo = list(eng.pc)
+    seen = set()
+    while todo and len(seen) < 20000:
+        t = todo.pop()
+        if t.get_id() in seen:
+            continue
+        seen.add(t.get_id())
+        if z3.is_int_value(t):
+            consts.add(t.as_long())
+        elif z3.is_rational_value(t) and t.denominator_as_long() == 1:
+            consts.add(t.numerator_as_long())
+        else:
+            todo.extend(t.children())
+    terms = [t for name, (kind, v) in eng.inputs.items() if kind != "nd" for t in _terms(v) if z3.is_int(t)][:4]
+    cs = z3.Solver()
+    cs.set("timeout", 2000)
+    cs.add(*eng.pc)
+    n = 0
+    for c in sorted(consts, key=abs, reverse=True):
+        for t in terms:
+            for d in (0, -1, 1):
+                if n >= max_checks:
+                    return
+                n += 1
+                cs.push()
+                cs.add(t == c + d)
+                ok = cs.check() == z3.sat
+                m = cs.model() if ok else None
+                cs.pop()
+                if not ok:
+                    continue
+                inputs = eng.extract_inputs(m)
+                inputs.update(case)
+                nat = native_outcome(h, inputs)
+                if nat[0] in ("violation", "escaped"):
+                    site = nat[1] + ":(found by native replay of a boundary value of the path condition)" if nat[0] == "violation" \
+                        else "escaped:" + str(nat[1])
+                    res["violations"].append(dict(site=site, known=None, inputs=_jsonable(inputs), case=case, native=list(nat), confirmed=True))
+                    return
 
 
 def _alternative_models(h, case, v, eng, tries=48):
@@ -476,7 +539,7 @@ def run_property(pid, tier, only=None, jobs=16, seed=0, budget_s=None):
                 if r["error"]:
                     a["errors"].append(dict(case=r["case"], error=r["error"]))
                 left = r["leftover"]
-                if left and not r["error"]:
+                if left and (not r["error"] or r["error"].startswith("solver-unknown on ")):
                     # split the leftover frontier into several tasks; witnesses are only collected early on
                     nchunks = min(len(left), max(1, jobs))
                     for i in range(nchunks):
